@@ -13,12 +13,37 @@ type (
 	RWMutex   = verifrt.RWMutex
 	WaitGroup = verifrt.WaitGroup
 	Once      = verifrt.Once
+	Cond      = verifrt.Cond
 	Locker    = rsync.Locker
-	Map       = rsync.Map
-	Pool      = rsync.Pool
-	// Cond is not modelled: it is aliased so that code mentioning it compiles; waiting on one
-	// inside an execution blocks the run token and trips the watchdog (framework error).
-	Cond = rsync.Cond
+	// Map and Pool are the real ones: they never block, and their internal synchronisation
+	// is executed atomically between two scheduling points
+	Map  = rsync.Map
+	Pool = rsync.Pool
 )
 
-var NewCond = rsync.NewCond
+var NewCond = verifrt.NewCond
+
+// OnceFunc, OnceValue and OnceValues are built on the modelled Once.
+func OnceFunc(f func()) func() {
+	var once Once
+	return func() { once.Do(f) }
+}
+
+func OnceValue[T any](f func() T) func() T {
+	var once Once
+	var v T
+	return func() T {
+		once.Do(func() { v = f() })
+		return v
+	}
+}
+
+func OnceValues[T1, T2 any](f func() (T1, T2)) func() (T1, T2) {
+	var once Once
+	var v1 T1
+	var v2 T2
+	return func() (T1, T2) {
+		once.Do(func() { v1, v2 = f() })
+		return v1, v2
+	}
+}
